@@ -64,14 +64,18 @@ func zzXuidBase() (base int64, symbolicOffset bool) {
 }
 
 func zzXuidNear(base int64, symbolicOffset bool) int64 {
-	if !symbolicOffset {
-		return base + int64(zz.Choose(17)) - 8
-	}
-	x := zz.Int64()
 	lim := int64(999)
 	if zz.Thorough() {
 		lim = 99999
 	}
+	return zzXuidWithin(base, symbolicOffset, lim)
+}
+
+func zzXuidWithin(base int64, symbolicOffset bool, lim int64) int64 {
+	if !symbolicOffset {
+		return base + int64(zz.Choose(17)) - 8
+	}
+	x := zz.Int64()
 	zz.Assume(x >= -lim && x <= lim)
 	return base + x
 }
@@ -130,7 +134,15 @@ func VerifHarness_JavaUuidDistinct() {
 		return h2
 	})
 	base, sym := zzXuidBase()
-	x, y := zzXuidNear(base, sym), zzXuidNear(base, sym)
+	// x is symbolic; y is one of its neighbourhood's fixed points (same value, adjacent values, values
+	// that differ in one higher digit, a value with another digit count). Two symbolic decimal
+	// conversions in one query were left undecided once on a loaded machine (10 000 paths), and add
+	// nothing: VerifHarness_JavaUuid already pins the hashed input to the decimal form for every x.
+	x := zzXuidNear(base, sym)
+	y := base + []int64{0, 1, -1, 10, -10, 100, 7}[zz.Choose(7)]
+	if zz.Bool() {
+		x = y // the same XUID twice
+	}
 	_, _ = (&BedrockData{Xuid: x}).JavaUuid()
 	_, _ = (&BedrockData{Xuid: y}).JavaUuid()
 	if x != y {
